@@ -57,6 +57,10 @@ type ProposalSpec struct {
 	Integ []TransformSpec `json:"integ,omitempty"`
 	DH    []TransformSpec `json:"dh,omitempty"`
 	ESN   []TransformSpec `json:"esn,omitempty"`
+	// ShareEncr: build-time aliasing only. This proposal's Encr list starts with the previous
+	// proposal's Encr list; its container is built by APPENDING to the previous proposal's
+	// container (shared backing array), as a caller building proposals incrementally does.
+	ShareEncr bool `json:"share_encr,omitempty"`
 }
 
 type TransformSpec struct {
@@ -167,9 +171,16 @@ func buildPayload(ps *PayloadSpec) (message.IKEPayload, error) {
 	switch ps.Kind {
 	case "SA":
 		sa := new(message.SecurityAssociation)
-		for _, pr := range ps.Proposals {
+		var prevEncr message.TransformContainer
+		for i, pr := range ps.Proposals {
 			p := sa.Proposals.BuildProposal(pr.Num, pr.Proto, pr.SPI)
-			p.EncryptionAlgorithm = buildTransforms(pr.Encr)
+			if pr.ShareEncr && i > 0 && len(prevEncr) > 0 && len(pr.Encr) > len(prevEncr) &&
+				string(canonTransforms(pr.Encr[:len(prevEncr)])) == string(canonTransforms(ps.Proposals[i-1].Encr)) {
+				p.EncryptionAlgorithm = append(prevEncr, buildTransforms(pr.Encr[len(prevEncr):])...)
+			} else {
+				p.EncryptionAlgorithm = buildTransforms(pr.Encr)
+			}
+			prevEncr = p.EncryptionAlgorithm
 			p.PseudorandomFunction = buildTransforms(pr.Prf)
 			p.IntegrityAlgorithm = buildTransforms(pr.Integ)
 			p.DiffieHellmanGroup = buildTransforms(pr.DH)
@@ -521,6 +532,12 @@ func (w *canonW) payload(p *PayloadSpec) {
 			w.bytes(a.Value)
 		}
 	}
+}
+
+func canonTransforms(ts []TransformSpec) []byte {
+	w := &canonW{}
+	w.transforms(ts)
+	return w.b
 }
 
 func canonPayloads(ps []PayloadSpec) []byte {
